@@ -73,6 +73,10 @@ func c08templates() []c08tmpl {
 	add("func literal defaults", "{|x, a: «0:int», b: «1:int», c: «2:int», d: «3:int»| [x, a, b, c, d]}(1)", true)
 	add("func literal defaults (names descending)", "{|x, d: «0:int», c: «1:int», b: «2:int», a: «3:int»| [x, a, b, c, d]}(1)", true)
 	add("duplicate kwargs both evaluated in order", "g8(a: «0:int», b: «1:int», a: «2:int», b: «3:int»)", true)
+	add("duplicate object keys both evaluated in order", "{a: «0:int», b: «1:int», a: «2:int», b: «3:int»}", true)
+	add("duplicate object keys in three spellings", "{a: «0:int», 'a: «1:int», \"a\": «2:int», a: «3:int»}", true)
+	add("duplicate map keys both evaluated (key and value of one pair in either order)", "%{1: «0:int», 1: «1:int», 'k: «2:int», 'k: «3:int»}", true)
+	add("duplicate keyword defaults both evaluated", "{|x, a: «0:int», a: «1:int»| [x, a]}(1)", true)
 	add("chain argument then args (reduce)", "«0:arr»$(«1:int»)+(«2:int»)", false)
 	add("chain argument then args (list)", "«0:arr»@([])+(«1:int»)", false)
 	add("literal call receiver then chain arg", "«0:arr»$(«1:int»){|a, x| a + x}", false)
@@ -127,6 +131,14 @@ var c08valueTemplates = []struct{ name, src, want string }{
 	{"iterator advanced in call args and kwargs", "it := [1, 2, 3, 4]._iter; f2(it.next, j: it.next, it.next, k: it.next)", "[1, 2, 4, 3]"},
 	{"iterator advanced in map pairs", "it := [1, 2, 3, 4]._iter; %{it.next: it.next, it.next: it.next}.A@{|p| p.sum}", "[3, 7]"},
 	{"receiver evaluated before arguments", "it := [[5], 0]._iter; it.next[it.next]", "5"},
+	{"two ** operands sharing a key: the first wins (call)", "f2(1, 2, **{k: 10, j: 20}, **{k: 11})", "[1, 2, 10, 20]"},
+	{"two ** operands sharing a key: the first wins (\\_)", "{|| \\_}(**{a: 1, b: 2}, **{b: 3, c: 4})", `{"a": 1, "b": 2, "c": 4}`},
+	{"three ** operands sharing keys", "{|| \\_}(**{a: 1}, **{a: 2, b: 2}, **{a: 3, b: 3, c: 3})", `{"a": 1, "b": 2, "c": 3}`},
+	{"explicit keyword beats ** operands", "f2(1, 2, k: 5, **{k: 6, j: 7}, **{j: 8})", "[1, 2, 5, 7]"},
+	{"two ** operands sharing a key in an object literal", "{**{a: 1, b: 2}, **{a: 3, c: 4}}", `{"a": 1, "b": 2, "c": 4}`},
+	{"two ** operands sharing a key in a map literal", "%{**%{1: 2}, **%{1: 3, 4: 5}}", "%{1: 2, 4: 5}"},
+	{"two ** operands sharing a key on a method", "om.m(1, 2, **{k: 10}, **{k: 11, j: 12})", "[1, 2, 10, 12]"},
+	{"two ** operands sharing a key on a built-in", "{a: 1, _b: 2}.keys(**{private?: true}, **{private?: false})", `["a", "_b"]`},
 }
 
 var c08names = []string{"alpha", "beta", "gamma", "delta", "eps", "zeta", "eta", "theta", "iota", "kappa", "lambda", "mu"}
